@@ -171,6 +171,11 @@ def eval_call(it, node, env):
     if cs:
         key = ast.unparse(f)
         if key in cs:
+            if callable(cs[key]):
+                # the contract gives the external callee as a function of its (evaluated) arguments, built from ghost values
+                it.assumptions_log.add("external call %s(...): replaced by the contract's ghost function (assumed contract on a dependency)" % key)
+                args, kwargs = eval_args(it, node, env)
+                return cs[key](it, *args, **kwargs)
             it.assumptions_log.add("external call %s(...): result havocked (the contract's ghost value %s; nothing is assumed about it)" % (key, cs[key]))
             return it.ghost_env[cs[key]]
     fv = it.eval(f, env)
